@@ -663,7 +663,7 @@ package server
 // SetCursor: the cursor is published with the cursor's key to the cursors partition with ack policy ALL, and the
 // cache is updated only after the publish succeeded, under the same lock, with the value that was published
 //@ func (*cursorManager).SetCursor serves C11
-//@   requires c != nil
+//@   assumes c != nil
 //@   ghost after call Publish: ghost.curKey := str(cursorKey)
 //@   ghost after call Publish: ghost.curStored[str(cursorKey)] := offset if ret1 == nil
 //@   ghost after call Add: ghost.curCached[unbox(arg1, "string")] := true
@@ -674,7 +674,7 @@ package server
 // GetCursor answers with the stored offset - from the cache or from the log - and fills the cache consistently
 //@ func (*cursorManager).GetCursor serves C11
 //@   returns (off, st)
-//@   requires c != nil
+//@   assumes c != nil
 //@   ghost after call Get: ghost.curKey := unbox(arg1, "string")
 //@   ghost after call getLatestCursorOffset: ghost.curKey := str(arg2)
 //@   ghost after call Add: ghost.curCached[unbox(arg1, "string")] := true
@@ -687,7 +687,7 @@ package server
 // accepted by another leader)
 //@ ghost var purged bool
 //@ func (*cursorManager).BecomePartitionLeader serves C11
-//@   requires c != nil
+//@   assumes c != nil
 //@   ghost after call Purge: ghost.curCached := reset()
 //@   ensures [cache-emptied] forall k string :: !ghost.curCached[k]
 //@ func (*partition).becomeLeader serves C11
